@@ -166,6 +166,19 @@ CLAIMS.update({
             WCS_NOTE, 'TLA+ spec + TLC, spec->code replay on real WCS objects, code->spec trace validation', 'DESIGN.md section 5 C07', 'wcs'),
 })
 
+CLAIMS.update({
+    'C18': ('model_checking',
+            'The exact membership of every lattice point (Geometry.tla, model-checked families with the 44 rational directions) is the oracle for '
+            'the patch outline: the real as_artist(origin) path is taken to data coordinates, split into sub-paths, scaled by 1e4 and queried with '
+            'contains_points at the lattice points shifted by the origin; annuli must give outer + oppositely oriented inner outline (signed '
+            'areas) with hole = outer and not inner; points/text/lines/bounding boxes/regular polygons are compared by position. Artist.tla '
+            '(kwargs = defaults (+) translated visual (+) caller kwargs) is model-checked and every state replayed against the real artist '
+            'properties; random shapes/origins are validated by Trace_Geometry.tla.',
+            'matplotlib Path.contains_points at scale 1e4 is trusted; a 1e-3 relative band around Bezier-approximated circle/ellipse outlines '
+            'and EDGE points are not compared; pixel-exact rendering is not covered.',
+            'TLA+ exact lattice model + TLC as oracle for patch outlines, Artist.tla kwargs law replayed, trace validation', 'DESIGN.md section 5 C18', 'artist'),
+})
+
 PENDING_REASON = ('specification module for this property is designed in DESIGN.md but its TLA+ module and '
                   'conformance binding are not built yet; not claimed until they are')
 
@@ -239,6 +252,8 @@ ENGINES.append({'name': 'fits', 'path': 'specs/Fits.tla specs/MC_Fits.tla specs/
                 'serves_properties': ['C12'], 'kind_free_text': 'FITS region table writer/reader model'})
 ENGINES.append({'name': 'wcs', 'path': 'specs/Wcs.tla specs/MC_Wcs.tla specs/Trace_Wcs.tla specs/Trace_Wcs7.tla vf/wcsutil.py vf/engines/c06.py c07.py',
                 'serves_properties': ['C06', 'C07'], 'kind_free_text': 'conformal affine WCS abstraction of region conversion'})
+ENGINES.append({'name': 'artist', 'path': 'specs/Artist.tla specs/Geometry.tla vf/engines/c18.py',
+                'serves_properties': ['C18'], 'kind_free_text': 'patch outlines against exact membership; kwargs merge law'})
 NA = {}
 
 
